@@ -1,0 +1,32 @@
+//go:build verif
+
+// Contracts for package resolver, read by /verif/govc. Comment-only file.
+package resolver
+
+// ---------------------------------------------------------------------------------- C19 / C18
+
+//@ spec func withPort(a string) string = contains(a, ":") ? a : a + ":53"
+
+//@ func normalizeAddrs
+//@   property C19 C16
+//@   returns (normal, err)
+//@   modifies nothing
+//@   ensures [same-length-same-order] err == nil ==> len(normal) == len(addrs) && fresh(normal)
+//@              && (forall i int :: 0 <= i && i < len(addrs) ==> normal[i] == withPort(addrs[i]))
+//@   ensures [validated] err == nil ==> (forall i int :: 0 <= i && i < len(addrs) ==>
+//@              hostport_ok(withPort(addrs[i])) && parseuint_ok(hp_port(withPort(addrs[i])), 10, 16) && isIP(hp_host(withPort(addrs[i]))))
+//@   ensures [invalid-rejected] (exists i int :: 0 <= i && i < len(addrs) &&
+//@              (!hostport_ok(withPort(addrs[i])) || !parseuint_ok(hp_port(withPort(addrs[i])), 10, 16) || !isIP(hp_host(withPort(addrs[i]))))) ==> err != nil
+//@   loop 1
+//@     invariant -1 <= rangeindex && rangeindex < len(addrs) && len(normal) == len(addrs) && fresh(normal) && off(normal) == 0
+//@     invariant forall i int :: 0 <= i && i <= rangeindex ==> normal[i] == withPort(addrs[i])
+//@              && hostport_ok(withPort(addrs[i])) && parseuint_ok(hp_port(withPort(addrs[i])), 10, 16) && isIP(hp_host(withPort(addrs[i])))
+//@     decreases len(addrs) - rangeindex
+
+//@ func (*resolver).address
+//@   property C18
+//@   requires [non-nil] r != nil
+//@   requires [at-least-one-address] len(r.addrs) >= 1
+//@   assume   [history-length] r.idx < MaxUint64
+//@   modifies r.idx
+//@   ensures [rotation] r.idx == old(r.idx) + 1 && result == r.addrs[emod(r.idx, len(r.addrs))]
